@@ -68,7 +68,8 @@ func wrapAll(fs []gfam.LeafFn) []gfam.LeafFn {
 			func() *g.Node { return g.Look(f(), '=') },
 			func() *g.Node { return g.Look(f(), '!') },
 			func() *g.Node { return g.Grp(f(), 0) },
-			func() *g.Node { return g.Grp(g.Grp(f(), '?'), '!') }, // nullable body, but the group must match something
+			func() *g.Node { return g.Grp(g.Grp(f(), '?'), '!') },                           // nullable body, but the group must match something
+			func() *g.Node { return g.Grp(g.Grp(gfam.CapMark(g.Grp(f(), '?')), '*'), '!') }, // a repetition of a capture that can match nothing
 		)
 	}
 	return out
@@ -272,7 +273,7 @@ func runC08(w *hx.Worker, mk func() *recGrammar, onlyKey string) {
 		return
 	}
 	w.Count("accepted", 1)
-	if r := "nullable repetition body"; rg.root.HasNullableRepetition() {
+	if r := "nullable repetition body"; false && rg.root.HasNullableRepetition() {
 		// a repetition whose body can match nothing loops up to MaxIterations (the library's own notion of a
 		// grammar bug): Build's verdict above is still judged, the dynamic cross-validation is skipped.
 		// Nullable alternatives / union members are parsed: the library's "did not progress" panic is
@@ -345,6 +346,9 @@ func minInt(a, b int) int {
 }
 
 func planC08(c *hx.Ctx) *hx.Plan {
+	// grammars that repeat a body which can match nothing are parsed as well: the library gives up on such a
+	// repetition after MaxIterations rounds, so the limit is lowered to keep those parses cheap
+	participle.MaxIterations = 64
 	gs := c08grammars(c.Quick())
 	return &hx.Plan{
 		N:        len(gs),
@@ -357,6 +361,7 @@ func planC08(c *hx.Ctx) *hx.Plan {
 }
 
 func replayC08(c *hx.Ctx, key string) []hx.Violation {
+	participle.MaxIterations = 64
 	w := hx.NewReplayWorker()
 	for _, q := range []bool{true, false} {
 		for _, mk := range c08grammars(q) {
